@@ -844,6 +844,18 @@ func (ln *linear) build(t *Term) *Term {
 		if abs.Cmp(big.NewInt(1)) == 0 {
 			return a
 		}
+		// an ascending counter times a constant is the counter with the scaled step and start: i·6 for i = 0,1,… is 0,6,…
+		if a.Op == "ind" && len(a.Args) == 1 && strings.HasPrefix(a.Name, "+") && abs.IsInt64() {
+			if st, okS := parseStep(a.Name); okS && st.Sign() > 0 {
+				if k0, okK := isConstInt(a.Args[0]); okK && k0.IsInt64() {
+					ns := new(big.Int).Mul(st, abs)
+					nk := new(big.Int).Mul(k0, abs)
+					if ns.IsInt64() && nk.IsInt64() {
+						return &Term{Op: "ind", Name: "+" + ns.String(), V: a.V, Args: []*Term{mkConst(nk, a.Args[0].V)}}
+					}
+				}
+			}
+		}
 		return &Term{Op: "bin", Name: "*", V: t.V, Args: []*Term{a, mkConst(abs, nil)}}
 	}
 	var acc *Term
